@@ -316,5 +316,99 @@ theorem spec_vertex_block_ascii (c : Coding α) (L : GoFloatText c) (Z : SpecInt
     simp only [vertLines, List.map_cons, List.cons_append, List.length_cons, readVertsAscii, hfl, hnot, if_false, hrow,
       h3, bind, Except.bind, pure, Except.pure]
 
+/-! ## faces of other sizes (ASCII) -/
+
+/-- an index list with more than 4 entries is an ERROR in ASCII (`Int`: "can't fit …", not ignored as in binary) -/
+theorem readFaceAscii_ref_long (c : Coding α) (fe : SpecFaceElem α) (htex : fe.tex = none) (fc : SpecFace α)
+    (hok : FaceEncOK fe fc) (h4 : 4 < fc.verts.length) (bufs : FaceBufs α) :
+    readFaceAscii c (lpOf fe) (findFaceProps (lpOf fe)) bufs (faceToksRef c fe fc) = .error .err := by
+  rw [findFaceProps_ref fe htex]
+  obtain ⟨short, ct, it, al, tex, tf, ex, faces⟩ := fe
+  simp only at htex
+  subst htex
+  obtain ⟨hv, _, hn, hx⟩ := hok
+  have hxn : fc.extra.length < 2 ^ 31 := by omega
+  rcases ex with _ | _ | _
+  · have := goA_idx_long c ⟨some 0, none⟩ 0 rfl
+      (if short then nm "vertex_index" else nm "vertex_indices", ct, it) fc.verts hn h4 [] (-1) bufs []
+    cases tf <;>
+      simpa [readFaceAscii, faceToksRef, lpOf, SpecFaceElem.lists, idxPos, List.zipIdx, faceListAscii,
+        readFaceAscii.go] using this
+  · have h1 := goA_idx_long c ⟨some 0, none⟩ 0 rfl
+      (if short then nm "vertex_index" else nm "vertex_indices", ct, it) fc.verts hn h4
+      [((nm "flags", .uchar, .int), 1)] (-1) bufs (showNat fc.extra.length :: (fc.extra.map showInt ++ []))
+    cases tf <;>
+      simpa [readFaceAscii, faceToksRef, lpOf, SpecFaceElem.lists, idxPos, List.zipIdx, faceListAscii,
+        readFaceAscii.go] using h1
+  · have h2 := goA_skip c ⟨some 1, none⟩ 0 (by simp) (by simp) (nm "flags", .uchar, .int) fc.extra hxn
+      [((if short then nm "vertex_index" else nm "vertex_indices", ct, it), 1)] (-1) bufs
+      (showNat fc.verts.length :: (fc.verts.map showNat ++ []))
+    have h1 := goA_idx_long c ⟨some 1, none⟩ 1 rfl
+      (if short then nm "vertex_index" else nm "vertex_indices", ct, it) fc.verts hn h4 [] (-1) bufs []
+    rw [h1] at h2
+    cases tf <;>
+      simpa [readFaceAscii, faceToksRef, lpOf, SpecFaceElem.lists, idxPos, List.zipIdx, faceListAscii,
+        readFaceAscii.go] using h2
+
+/-- the ASCII face loop over a run of triangle / quad lines goes on with the remaining faces on the following lines -/
+theorem readFacesAscii_ref_prefix (c : Coding α) (fe : SpecFaceElem α) (htex : fe.tex = none) :
+    ∀ (pre : List (SpecFace α)), (∀ fc ∈ pre, FaceEncOK fe fc ∧ TriOrQuad fc) → ∀ (b : FaceBufs α), BufsOk b →
+      ∃ b', BufsOk b' ∧ ∀ (n : Nat) (tail : List Bytes),
+        readFacesAscii c (lpOf fe) (findFaceProps (lpOf fe)) (pre.length + n) b (faceLines c fe pre ++ tail)
+          = (do
+              let (i, u) ← readFacesAscii c (lpOf fe) (findFaceProps (lpOf fe)) n b' tail
+              pure (fanIdx pre ++ i, u)) := by
+  intro pre
+  induction pre with
+  | nil =>
+    intro _ b hb
+    refine ⟨b, hb, fun n tail => ?_⟩
+    simp only [List.length_nil, Nat.zero_add, faceLines, List.map_nil, List.nil_append, fanIdx, List.flatten_nil]
+    cases readFacesAscii c (lpOf fe) (findFaceProps (lpOf fe)) n b tail <;> rfl
+  | cons fc pre ih =>
+    intro hpre b hb
+    obtain ⟨hok, htq⟩ := hpre fc (by simp)
+    have h4 : fc.verts.length ≤ 4 := by rcases htq with h | h <;> omega
+    have hb' : BufsOk (afterRefA fc.verts b) := by rw [afterRefA_eq _ h4]; exact afterRef_ok _ _ hb
+    obtain ⟨b', hb'', hrest⟩ := ih (fun g hg => hpre g (by simp [hg])) (afterRefA fc.verts b) hb'
+    refine ⟨b', hb'', fun n tail => ?_⟩
+    obtain ⟨hne, htk⟩ := faceToksRef_tok c fe htex fc
+    have hfl := (token_line _ hne htk).2
+    have h1 := readFaceAscii_ref c fe htex fc hok h4 b
+    have h2 := emitFace_ref fc.verts htq b hb
+    rw [← afterRefA_eq _ h4] at h2
+    have hT : (findFaceProps (lpOf fe)).texProp.isSome = false := by rw [findFaceProps_ref fe htex]; rfl
+    have hlen : (fc :: pre).length + n = (pre.length + n) + 1 := by simp; omega
+    have h3 := hrest n tail
+    simp only [faceLines] at h3
+    rw [hlen]
+    simp only [faceLines, List.map_cons, List.cons_append, readFacesAscii, hfl, h1, bind, Except.bind, hT, h2, h3]
+    cases readFacesAscii c (lpOf fe) (findFaceProps (lpOf fe)) n b' tail with
+    | error _ => rfl
+    | ok r => simp [fanIdx, pure, Except.pure]
+
+/-- A FACE OF ANOTHER SIZE after a run of triangles / quads: the ASCII loop stops with an error -/
+theorem readFacesAscii_ref_reject (c : Coding α) (fe : SpecFaceElem α) (htex : fe.tex = none)
+    (pre : List (SpecFace α)) (bad : SpecFace α) (post : List (SpecFace α))
+    (hpre : ∀ fc ∈ pre, FaceEncOK fe fc ∧ TriOrQuad fc) (hbad : FaceEncOK fe bad) (hsize : ¬ TriOrQuad bad)
+    (b : FaceBufs α) (hb : BufsOk b) :
+    readFacesAscii c (lpOf fe) (findFaceProps (lpOf fe)) (pre ++ bad :: post).length b
+        (faceLines c fe (pre ++ bad :: post)) = .error .err := by
+  obtain ⟨b', _, h⟩ := readFacesAscii_ref_prefix c fe htex pre hpre b hb
+  have hlen : (pre ++ bad :: post).length = pre.length + (post.length + 1) := by simp
+  have hlines : faceLines c fe (pre ++ bad :: post)
+      = faceLines c fe pre ++ (intercalate sp (faceToksRef c fe bad) :: faceLines c fe post) := by
+    simp [faceLines]
+  rw [hlen, hlines, h]
+  obtain ⟨hne, htk⟩ := faceToksRef_tok c fe htex bad
+  have hfl := (token_line _ hne htk).2
+  by_cases h4 : bad.verts.length ≤ 4
+  · have h1 := readFaceAscii_ref c fe htex bad hbad h4 b'
+    have h2 := emitFace_reject bad.verts hsize (findFaceProps (lpOf fe)).texProp.isSome b'
+    rw [← afterRefA_eq _ h4] at h2
+    simp only [readFacesAscii, hfl, h1, bind, Except.bind, h2]
+  · have h1 := readFaceAscii_ref_long c fe htex bad hbad (by omega) b'
+    simp only [readFacesAscii, hfl, h1, bind, Except.bind]
+
 end PlyFacesAscii
 end PolyVerif
